@@ -27,7 +27,7 @@ def floors(tier):
 def generate(ctx):
     n = ctx.budget(8000, 720000)
     for _ in range(n):
-        regime = ctx.rng.choice(["round_numbers", "typical", "wide", "equal_size", "equal_size", "huge_sigma", "mismatch", "tiny_sigma",
+        regime = ctx.rng.choice(["round_numbers", "coincidences", "typical", "wide", "equal_size", "equal_size", "huge_sigma", "mismatch", "tiny_sigma",
                                  "identical", "identical"])
         case, meta = gen.gen_case(ctx.rng, regime=regime)
         if ctx.rng.random() < 0.5:
